@@ -336,7 +336,26 @@ def inheritance_shapes(draw):
 
 @st.composite
 def _case(draw, texts):
-    gen = draw(st.sampled_from(["mut", "mut", "mut", "rand", "multi", "inherit"]))
+    gen = draw(st.sampled_from(["mut", "mut", "mut", "rand", "multi", "inherit", "genbase", "genbase"]))
+    if gen == "genbase":
+        # freshly generated programs (WideGen, API-shaped, ScopeGen, C02's shape stress) as they are or with 1-4 mutations
+        from pbt import apigen, p_c02, scopegen, widegen
+        which = draw(st.sampled_from(["wide", "wide", "api", "scope", "ctor", "shape"]))
+        if which == "wide":
+            base = draw(widegen.programs())["src"]
+        elif which == "api":
+            base = draw(apigen.programs())["src"]
+        elif which == "scope":
+            base = draw(scopegen.scope_case(draw(st.sampled_from(["assign", "read"])), False))["src"]
+        elif which == "ctor":
+            base = draw(scopegen.ctor_case())["src"]
+        else:
+            base = draw(p_c02.shape_stress())["src"]
+        base = base[:MAX_LEN]
+        if draw(st.integers(0, 3)) == 0:
+            return {"gen": "genbase:" + which, "files": [[base, None]], "annotate": draw(st.booleans())}
+        m = draw(mutate.mutated([base], max_len=MAX_LEN, max_lines=MAX_LINES))
+        return {"gen": "genbase:" + which, "files": [[m["text"], None]], "annotate": draw(st.booleans()), "kinds": m["kinds"]}
     if gen == "inherit":
         text = draw(inheritance_shapes())
         if draw(st.integers(0, 3)) == 0:
@@ -374,7 +393,8 @@ class C03:
             "tests/resource/**/*.mamba and of /verif/pbt/seeds, (rand) random sequences over Mamba's "
             "lexical vocabulary plus hostile characters, (multi) 2-4 such files as one project, (inherit) "
             "structurally generated class graphs of 1-5 plain or generic classes whose parents are drawn among all classes "
-            "(self references, cycles, diamonds, varying generic arguments, split over two files), (adv) a "
+            "(self references, cycles, diamonds, varying generic arguments, split over two files), (genbase) freshly generated "
+            "WideGen / API-shaped / ScopeGen / constructor / shape-stress programs as they are or with 1-4 mutations, (adv) a "
             "fixed catalogue of adversarial shapes; bounds: <=1 KiB and <=200 lines per file, nesting <=40, "
             "<=4 files. Non-trivial: the (first) text lexes to >=3 tokens, i.e. got past the first lexer "
             "error path; distinct by SHA-1 of files+flag. Oracle: isolated worker returns ok (one string "
